@@ -1,5 +1,6 @@
 import AkVerif.Lemmas.Assign
 import AkVerif.Lemmas.StickyAlg
+import AkVerif.Lemmas.StickyOwn
 /-!
 # C14 — assignors give each subscribed partition exactly one subscribed owner, balanced
 
@@ -394,6 +395,166 @@ theorem sticky_nothing_else (fuel : Nat) (parts : List (Topic × List Nat)) (mem
             injection heq with e1 e2
             subst e1; subst e2
             exact ⟨ht', all, hget, hk⟩
+
+open AkVerif.StickyAlg in
+/-- **every subscribed partition has exactly one owner** — for every cluster (topics and
+    partition ids without repetition), every list of members with distinct ids (any subscriptions,
+    any previous assignment in the user data), every oracle and every fuel: if the port of
+    `StickyPartitionAssignor.assign` returns an assignment, then each partition of each topic that
+    has metadata and at least one subscriber is handed to some member, and never to two different
+    members.  (Invariant `Own`: the consumers' lists and the owner map describe the same function,
+    without duplicates; preserved by `_assign_partition`, `_move_partition`, the set-aside and
+    re-insertion of fixed consumers and the revert; established for the state built from the user
+    data.)  Together with `sticky_nothing_else` this is the validity clause of C14 for the sticky
+    assignor; termination (fuel) and KIP-54 balance remain unproved. -/
+theorem sticky_exact_cover (fuel : Nat) (parts : List (Topic × List Nat)) (members : List MemberIn)
+    (oracle : List TP) (hparts : (parts.map (·.1)).Nodup) (hps : ∀ tps ∈ parts, tps.2.Nodup)
+    (hmem : (members.map (·.id)).Nodup)
+    (out : Output) (left : Nat) (h : StickyAlg.assign fuel parts members oracle = .ok out left)
+    (t : Topic) (all : List Nat) (ht : (t, all) ∈ parts) (p : Nat) (hp : p ∈ all)
+    (hsub : ∃ m ∈ members, t ∈ m.subs) :
+    (∃ m items ps, (m, items) ∈ out ∧ (t, ps) ∈ items ∧ p ∈ ps) ∧
+    (∀ m1 i1 ps1 m2 i2 ps2, (m1, i1) ∈ out → (t, ps1) ∈ i1 → p ∈ ps1 →
+      (m2, i2) ∈ out → (t, ps2) ∈ i2 → p ∈ ps2 → m1 = m2) := by
+  unfold StickyAlg.assign at h
+  simp only at h
+  obtain ⟨hpre, hcov⟩ := initState_preBalance parts members oracle hparts hps hmem
+  have hf := populateSorted_fields (initState parts members oracle)
+  generalize hs0 : populatePartitionsToReassign (populateSortedPartitions (initState parts members oracle)) = s0 at h hpre hcov
+  -- facts about the static tables of s0
+  have hc2p : s0.c2p = members.map (fun m => (m.id, potentialOf parts m)) := by
+    rw [← hs0]
+    show (populateSortedPartitions (initState parts members oracle)).c2p = _
+    rw [hf.2.2.1, initState_c2p]
+  have hp2c : s0.p2c = (initState parts members oracle).p2c := by
+    rw [← hs0]; show (populateSortedPartitions (initState parts members oracle)).p2c = _; rw [hf.2.2.2.1]
+  have hcurkeys : ∀ m ∈ members, m.id ∈ keysOf s0.cur := by
+    intro m hm
+    have := (initState_ownCore parts members oracle).2 m hm
+    rw [← hs0]
+    have hk : keysOf (populatePartitionsToReassign (populateSortedPartitions (initState parts members oracle))).cur
+        = keysOf (populateSortedPartitions (initState parts members oracle)).cur := by
+      unfold populatePartitionsToReassign keysOf; simp [List.map_map, Function.comp_def]
+    rw [hk, hf.1]; exact this
+  cases hb : balance fuel s0 with
+  | none => rw [hb] at h; cases h
+  | some s1 =>
+    rw [hb] at h
+    simp only at h
+    split at h
+    · cases h
+    · rename_i hfail
+      split at h
+      · cases h
+      · injection h with h1 _
+        have hok : s1.failed = none := by assumption
+        obtain ⟨hown, _, hassigned, hkept⟩ := balance_own fuel s0 s1 hpre hb hok
+        -- (t, p) is a partition with a potential consumer
+        obtain ⟨m0, hm0, htm0⟩ := hsub
+        have hget : alGet parts t = some all := alGet_of_mem_nodup parts t all hparts ht
+        have hpotm0 : (t, p) ∈ potentialOf parts m0 := by
+          unfold potentialOf
+          apply List.mem_flatMap.mpr
+          refine ⟨t, htm0, ?_⟩
+          simp only [hget]
+          exact List.mem_map.mpr ⟨p, hp, rfl⟩
+        have hpot0 : (t, p) ∈ potOf s0 m0.id := by
+          unfold potOf alGetD
+          rw [hc2p, alGet_map_find]
+          have hfind : members.find? (·.id == m0.id) = some m0 := by
+            -- ids are distinct, so the first member with this id is m0 itself
+            have : ∀ (l : List MemberIn), (l.map (·.id)).Nodup → m0 ∈ l → l.find? (·.id == m0.id) = some m0 := by
+              intro l
+              induction l with
+              | nil => intro _ h; cases h
+              | cons a r ih =>
+                intro hn hin
+                simp only [List.map_cons, List.nodup_cons] at hn
+                rcases List.mem_cons.mp hin with rfl | hin'
+                · simp
+                · have hne : (a.id == m0.id) = false := by
+                    apply Bool.eq_false_iff.mpr; intro he
+                    have : a.id = m0.id := by simpa using he
+                    exact hn.1 (this ▸ List.mem_map.mpr ⟨m0, hin', rfl⟩)
+                  simp only [List.find?_cons, hne]
+                  exact ih hn.2 hin'
+            exact this members hmem hm0
+          rw [hfind]; exact hpotm0
+        have hp2c' : s0.p2c = (allTpsOf parts).map
+            (fun tp => (tp, (members.filter (fun m => (potentialOf parts m).contains tp)).map (·.id))) := by
+          rw [hp2c]; rfl
+        have hall : (t, p) ∈ allTpsOf parts :=
+          List.mem_flatMap.mpr ⟨(t, all), ht, List.mem_map.mpr ⟨p, hp, rfl⟩⟩
+        have hkeysp2c : keysOf s0.p2c = allTpsOf parts := by
+          rw [hp2c']; unfold keysOf; simp [List.map_map, Function.comp_def]
+        have hkeyp2c : (t, p) ∈ keysOf s0.p2c := by rw [hkeysp2c]; exact hall
+        have hcons : (consumersOf s0 (t, p)).isEmpty = false := by
+          unfold consumersOf alGetD
+          have hg : alGet s0.p2c (t, p)
+              = some ((members.filter (fun m => (potentialOf parts m).contains (t, p))).map (·.id)) := by
+            apply alGet_of_mem_nodup
+            · show (keysOf s0.p2c).Nodup
+              rw [hkeysp2c]; exact allTps_nodup parts hparts hps
+            · rw [hp2c']; exact List.mem_map.mpr ⟨(t, p), hall, rfl⟩
+          rw [hg]
+          simp only [Option.getD_some]
+          apply Bool.eq_false_iff.mpr
+          intro hnil
+          have hnil' : (members.filter (fun m => (potentialOf parts m).contains (t, p))) = [] := by
+            simpa using hnil
+          have : m0 ∈ members.filter (fun m => (potentialOf parts m).contains (t, p)) :=
+            List.mem_filter.mpr ⟨hm0, by simpa using hpotm0⟩
+          rw [hnil'] at this; cases this
+        -- owned after balance
+        have howned : (alGet s1.owner (t, p)).isSome := by
+          rcases hcov (t, p) (by rw [← hp2c]; exact hkeyp2c) with hun | hown0
+          · exact hassigned (t, p) hun hcons ⟨m0.id, hcurkeys m0 hm0, by simpa using hpot0⟩
+          · exact hkept (t, p) hown0
+        obtain ⟨c, hc⟩ := Option.isSome_iff_exists.mp howned
+        obtain ⟨psc, hpsc, hpin⟩ := hown.OH (t, p) c hc
+        simp only [List.append_nil] at hpsc
+        have hcur : psc = curOf s1 c := entry_curOf s1 [] hown c psc hpsc
+        -- c is a member id: its list is non-empty and potential, hence c2p has it … we only need out
+        have hcmem : ∃ m ∈ members, m.id = c := by
+          have hpotc := mem_curOf s1 (balance_pot fuel s0 s1 hpre.pot hb).1 c (t, p) (hcur ▸ hpin)
+          unfold potOf alGetD at hpotc
+          rw [(balance_pot fuel s0 s1 hpre.pot hb).2, hc2p, alGet_map_find] at hpotc
+          cases hfind : members.find? (·.id == c) with
+          | none => simp [hfind] at hpotc
+          | some m =>
+            have := List.find?_some hfind
+            exact ⟨m, List.mem_of_find?_eq_some hfind, by simpa using this⟩
+        obtain ⟨mc, hmc, hmcid⟩ := hcmem
+        subst h1
+        refine ⟨?_, ?_⟩
+        · have := finalFor_complete (curOf s1 mc.id) [] (t, p) (by simp [keysOf]) (Or.inr (by rw [hmcid, ← hcur]; exact hpin))
+          obtain ⟨psi, hpsi, hpp⟩ := this
+          exact ⟨mc.id, finalFor s1 mc.id, psi, List.mem_map.mpr ⟨mc, hmc, rfl⟩, hpsi, hpp⟩
+        · intro m1 i1 ps1 m2 i2 ps2 h1 h1t h1p h2 h2t h2p
+          obtain ⟨a, _, ea⟩ := List.mem_map.mp h1
+          obtain ⟨b, _, eb⟩ := List.mem_map.mp h2
+          injection ea with ea1 ea2
+          injection eb with eb1 eb2
+          subst ea2; subst eb2
+          have held1 : (t, p) ∈ curOf s1 a.id :=
+            finalFor_sound (curOf s1 a.id) [] (curOf s1 a.id) (by intro x hx; cases hx) (fun q hq => hq) (t, ps1) h1t p h1p
+          have held2 : (t, p) ∈ curOf s1 b.id :=
+            finalFor_sound (curOf s1 b.id) [] (curOf s1 b.id) (by intro x hx; cases hx) (fun q hq => hq) (t, ps2) h2t p h2p
+          -- a held partition is owned by its holder
+          have ownerOf : ∀ (x : Member), (t, p) ∈ curOf s1 x → alGet s1.owner (t, p) = some x := by
+            intro x hx
+            have hxk : x ∈ keysOf s1.cur := by
+              unfold curOf at hx
+              rw [alGetD_def] at hx
+              cases hg : alGet s1.cur x with
+              | none => rw [hg] at hx; cases hx
+              | some l => exact List.mem_map.mpr ⟨(x, l), alGet_mem _ _ _ hg, rfl⟩
+            have := hown.HO (x, curOf s1 x) (by simpa using curOf_entry s1 x hxk) (t, p) hx
+            exact this
+          have o1 := ownerOf a.id held1
+          have o2 := ownerOf b.id held2
+          rw [o1] at o2; injection o2 with o2
+          rw [← ea1, ← eb1]; exact o2
 
 /-! ## non-vacuity: concrete inputs meet the hypotheses and the models compute -/
 def exInp : Input := ⟨[(0, [0, 1, 2]), (1, [0, 1])], [(1, [0, 1]), (0, [0])]⟩
